@@ -1,1 +1,2 @@
 pub mod c12;
+pub mod c13;
